@@ -195,7 +195,7 @@ def validate(run, tfile, tag, timeout=1800, kind="broker", dev=()):
     cfg = cfg.replace("Conns <- TraceConns", "Conns = {%s}" % ", ".join('"%s"' % c for c in conns))
     cfg = cfg.replace("SKeys <- TraceSKeys", "SKeys = {%s}" % ", ".join('"%s"' % k for k in skeys))
     try:
-        r = lib.tlc(run.wd, KINDS[kind]["module"], cfg, workers=1, deque=True, timeout=min(timeout, 600) if len(order) > 1 else timeout,
+        r = lib.tlc(run.wd, KINDS[kind]["module"], cfg, workers=1, deque=True, timeout=min(timeout, 600 if getattr(run, "tier", "quick") == "quick" else 1500) if len(order) > 1 else timeout,
                     defs={"TRACE": tfile}, extra=["-nowarning"])
     except lib.Infra as e:
         if "timed out" not in str(e) or len(order) == 1:
